@@ -139,7 +139,9 @@ def realise(plan, with_private=False):
         t.add_input(prev_txid=inp['prev'], output_n=inp['n'], keys=keys, script_type=lib_script_type(inp),
                     sigs_required=inp['m'] if inp['kind'] in MS_KINDS else None, sort=bool(inp.get('sort')),
                     sequence=inp['seq'], compressed=inp['compressed'], value=inp['value'],
-                    witness_type=lib_witness_type(inp))
+                    witness_type=lib_witness_type(inp),
+                    # documented argument "locking script (scriptPubKey) of previous output if known"
+                    **({'locking_script': prevout(inp)['spk']} if inp.get('give_spk') else {}))
     for o in plan['outputs']:
         if o.get('by') == 'address' and o['kind'] not in ('raw', 'nulldata'):
             t.add_output(o['value'], address=output_address(o, plan['network']))
@@ -215,6 +217,7 @@ def inputs(draw, network, max_keys=4, kinds=None):
     order = draw(st.permutations(list(range(n))))
     signers = list(order[:m])
     return {'kind': kind, 'secrets': secrets, 'compressed': compressed, 'm': m,
+            'give_spk': draw(st.sampled_from([False, False, True])),
             'sort': draw(st.booleans()) if kind in MS_KINDS else False,
             'prev': draw(st.binary(min_size=32, max_size=32).filter(lambda b: b != bytes(32))).hex(),
             'n': draw(st.one_of(st.sampled_from([0, 1, 0xfffe, 0xffff, 0xfffffffe]), st.integers(0, 0xfffffffe))),
